@@ -151,6 +151,76 @@ class FuncInfo:
     return '<Func %s>' % self.key
 
 
+def _setattr_names(tree, call):
+  """the attribute names a `setattr(obj, name, v)` call can store: a literal
+  name, or the loop variable of an enclosing `for` over a literal sequence of
+  (name, value) pairs / the items of a literal dict bound just before; None
+  when the names cannot be enumerated"""
+  if len(call.args) < 2:
+    return None
+  a = call.args[1]
+  if isinstance(a, ast.Constant) and isinstance(a.value, str):
+    return [a.value]
+  if not isinstance(a, ast.Name):
+    return None
+  for loop in ast.walk(tree):
+    if not isinstance(loop, ast.For) or not any(x is call
+                                                for x in ast.walk(loop)):
+      continue
+    tgt = loop.target
+    pos = None
+    if isinstance(tgt, ast.Name) and tgt.id == a.id:
+      pos = -1
+    elif isinstance(tgt, ast.Tuple):
+      for i, el in enumerate(tgt.elts):
+        if isinstance(el, ast.Name) and el.id == a.id:
+          pos = i
+    if pos is None:
+      continue
+    it = loop.iter
+    # d.items() of a dict literal assigned to a name in the same function
+    if isinstance(it, ast.Call) and isinstance(it.func, ast.Attribute) and \
+            it.func.attr in ('items', 'keys') and not it.args and \
+            isinstance(it.func.value, ast.Dict) and pos in (0, -1):
+      ks = it.func.value.keys
+      if all(isinstance(k, ast.Constant) and isinstance(k.value, str)
+             for k in ks):
+        return [k.value for k in ks]
+      return None
+    if isinstance(it, ast.Call) and isinstance(it.func, ast.Attribute) and \
+            it.func.attr in ('items', 'keys') and not it.args and \
+            isinstance(it.func.value, ast.Name) and pos in (0, -1):
+      encl = [f_ for f_ in ast.walk(tree)
+              if isinstance(f_, (ast.FunctionDef, ast.Module)) and
+              any(x is loop for x in ast.walk(f_))]
+      scope = min(encl, key=lambda f_: sum(1 for _ in ast.walk(f_)))
+      defs = [st for st in ast.walk(scope)
+              if isinstance(st, ast.Assign) and len(st.targets) == 1 and
+              isinstance(st.targets[0], ast.Name) and
+              st.targets[0].id == it.func.value.id]
+      if len(defs) == 1 and isinstance(defs[0].value, ast.Dict):
+        ks = defs[0].value.keys
+        if all(isinstance(k, ast.Constant) and isinstance(k.value, str)
+               for k in ks):
+          return [k.value for k in ks]
+      return None
+    if isinstance(it, (ast.Tuple, ast.List)):
+      names = []
+      for el in it.elts:
+        if pos == -1:
+          e0 = el
+        elif isinstance(el, (ast.Tuple, ast.List)) and len(el.elts) > pos:
+          e0 = el.elts[pos]
+        else:
+          return None
+        if not (isinstance(e0, ast.Constant) and isinstance(e0.value, str)):
+          return None
+        names.append(e0.value)
+      return names
+    return None
+  return None
+
+
 class ClassInfo:
   def __init__(self, module, name, node):
     self.module = module
@@ -692,7 +762,19 @@ class Repo:
             out.add(n.attr)
           elif isinstance(n, ast.Call) and isinstance(n.func, ast.Name) and \
                   n.func.id == 'setattr':
-            out.add('*')
+            names = _setattr_names(m.tree, n)
+            out.update(names if names is not None else ['*'])
+          elif isinstance(n, ast.Call) and \
+                  isinstance(n.func, ast.Attribute) and \
+                  n.func.attr == 'update' and (
+                      (isinstance(n.func.value, ast.Call) and
+                       isinstance(n.func.value.func, ast.Name) and
+                       n.func.value.func.id == 'vars') or
+                      (isinstance(n.func.value, ast.Attribute) and
+                       n.func.value.attr == '__dict__')):
+            if n.args or any(k.arg is None for k in n.keywords):
+              out.add('*')
+            out.update(k.arg for k in n.keywords if k.arg)
       self._stored = out
     return self._stored
 
